@@ -253,23 +253,55 @@ class _RInterp(MiniInterp):
                         yield b
                 return gen()
             if isinstance(n.func, ast.Attribute) and isinstance(n.func.value, ast.Name) and n.func.value.id == "self":
-                name = n.func.attr
-                args = [self.ev(a) for a in n.args]
-                if name in Reader.CALLBACKS:
-                    self.reader.passed |= {id(a) for a in args if isinstance(a, list)}
-                    self.reader.events.append((Reader.CALLBACKS[name],) + tuple(tuple(a) if isinstance(a, list) else a for a in args))
-                    return None
-                r = mro_lookup(self.reader.mod, self.reader.cls, name)
-                if r is not None and isinstance(r[1], ast.FunctionDef):
-                    self.reader.depth += 1
-                    if self.reader.depth > 30:
-                        raise AnalysisError("C38: helper recursion in the reader model")
-                    try:
-                        return _RInterp(r[1], self.reader).call(*args)
-                    finally:
-                        self.reader.depth -= 1
-                raise AnalysisError(f"C38: dataReceived calls self.{name}() which is not defined in {self.reader.cls.name}")
+                return self.invoke_self(n.func.attr, self._args(n))
         return MiniInterp.ev(self, n)
+
+    def invoke_self(self, name, args):
+        if name in Reader.CALLBACKS:
+            self.reader.passed |= {id(a) for a in args if isinstance(a, list)}
+            self.reader.events.append((Reader.CALLBACKS[name],) + tuple(tuple(a) if isinstance(a, list) else a for a in args))
+            return None
+        r = mro_lookup(self.reader.mod, self.reader.cls, name)
+        if r is not None and isinstance(r[1], ast.FunctionDef):
+            self.reader.depth += 1
+            if self.reader.depth > 30:
+                raise AnalysisError("C38: helper recursion in the reader model")
+            try:
+                return _RInterp(r[1], self.reader).call(*args)
+            finally:
+                self.reader.depth -= 1
+        raise AnalysisError(f"C38: dataReceived calls self.{name}() which is not defined in {self.reader.cls.name}")
+
+    def invoke_value(self, fv, args):
+        from sa.props._lib_h import SELF, BoundRef, FuncRef
+        if isinstance(fv, BoundRef):
+            return self.invoke_self(fv.name, args)
+        if isinstance(fv, FuncRef):
+            if not args or args[0] is not SELF:
+                raise AnalysisError("C38: class function called without self")
+            self.reader.depth += 1
+            if self.reader.depth > 30:
+                raise AnalysisError("C38: helper recursion in the reader model")
+            try:
+                return _RInterp(fv.func, self.reader).call(*args[1:])
+            finally:
+                self.reader.depth -= 1
+        return MiniInterp.invoke_value(self, fv, args)
+
+    def class_attr(self, name):
+        """a method taken as a value, or a class-level table (its entries may name functions of the class)"""
+        from sa.props._lib_h import BoundRef, FuncRef
+        if name in Reader.CALLBACKS:
+            return BoundRef(name)
+        r = mro_lookup(self.reader.mod, self.reader.cls, name)
+        if r is not None and isinstance(r[1], ast.FunctionDef):
+            return BoundRef(name)
+        if r is not None and isinstance(r[1], ast.expr):
+            fns = {k: FuncRef(v) for k, v in methods(r[0]).items()}
+            sub = MiniInterp(self.func, {}, {}, {**self.consts, **fns})
+            sub.loc = {}
+            return sub.ev(r[1])
+        raise ModelError(f"AttributeError: {name}")
 
 
 class Reader:
@@ -601,7 +633,7 @@ def check(ctx):
         _ok_rd = True
     with ctx.section('reader/states'):
         ctx.need(_ok_rd, 'anchors of reader (section skipped)')
-        # dataReceived and the private helpers only it (transitively) calls form the parser
+        # dataReceived, the private helpers only it (transitively) calls, and the functions it reaches through class-level tables form the parser
         allm = {}
         for cls in (tel, tt):
             for name, f in methods(cls).items():
@@ -612,12 +644,27 @@ def check(ctx):
                 for c in ast.walk(f):
                     if isinstance(c, ast.Call) and isinstance(c.func, ast.Attribute) and isinstance(c.func.value, ast.Name) and c.func.value.id == "self":
                         callers.setdefault(c.func.attr, set()).add(name)
+        tables = {}        # class-level table name -> {key: function name}
+        for nm, e in class_assigns(tel).items():
+            if isinstance(e, ast.Dict) and e.keys and all(isinstance(k, ast.Constant) for k in e.keys) and all(isinstance(v, ast.Name) and v.id in methods(tel) for v in e.values):
+                tables[nm] = {k.value: v.id for k, v in zip(e.keys, e.values)}
+        table_users = {}
+        for name, defs in allm.items():
+            for cls, f in defs:
+                for x in ast.walk(f):
+                    if isinstance(x, ast.Attribute) and isinstance(x.value, ast.Name) and x.value.id == "self" and x.attr in tables:
+                        table_users.setdefault(x.attr, set()).add(name)
+        via_table = {fn_: tn for tn, tb in tables.items() for fn_ in tb.values()}
         parser = {"dataReceived"}
         changed = True
         while changed:
             changed = False
             for name in allm:
-                if name not in parser and name.startswith("_") and callers.get(name) and callers[name] <= parser:
+                if name in parser or not name.startswith("_"):
+                    continue
+                called = callers.get(name, set())
+                tabled = table_users.get(via_table[name], set()) if name in via_table else set()
+                if (called or tabled) and called <= parser and tabled <= parser:
                     parser.add(name)
                     changed = True
         handled = set()
@@ -627,6 +674,12 @@ def check(ctx):
                     if isinstance(n, ast.Compare) and len(n.ops) == 1 and isinstance(n.ops[0], (ast.Eq, ast.NotEq)) and self_attr(n.left, "state") \
                             and isinstance(n.comparators[0], ast.Constant):
                         handled.add(n.comparators[0].value)
+                    # dispatch through a table indexed by the state: its keys are the states that have a handler
+                    if isinstance(n, ast.Call) and isinstance(n.func, ast.Attribute) and n.func.attr == "get" and n.args and self_attr(n.args[0], "state") \
+                            and isinstance(n.func.value, ast.Attribute) and self_attr(n.func.value, n.func.value.attr) and n.func.value.attr in tables:
+                        handled |= set(tables[n.func.value.attr])
+                    if isinstance(n, ast.Subscript) and self_attr(n.slice, "state") and isinstance(n.value, ast.Attribute) and self_attr(n.value, n.value.attr) and n.value.attr in tables:
+                        handled |= set(tables[n.value.attr])
         assigned = {}
         assigned[default.value] = "class default"
         n_sw = 0
@@ -636,47 +689,61 @@ def check(ctx):
                     if isinstance(st, ast.Assign) and any(self_attr(t, "state") for t in st.targets):
                         n_sw += 1
                         ctx.check(cls is tel and name in parser, "reader/who-writes-state", ctx.construct(f"{M}{cls.name}.{name}", st),
-                                  "the parse state is written outside dataReceived (and the private helpers only it calls)")
+                                  "the parse state is written outside dataReceived (and the private helpers / table-dispatched handlers only it reaches)")
                         if isinstance(st.value, ast.Constant):
                             assigned.setdefault(st.value.value, f"{cls.name}.{name}")
                         else:
                             ctx.check(False, "reader/state-has-branch", ctx.construct(f"{M}{cls.name}.{name}", st), "parse state assigned from a non-constant")
         ctx.floor("reader/who-writes-state", n_sw, 8, "state writes")
+        ctx.need(handled, "the parser's dispatch on self.state (comparisons or a table indexed by the state)")
         for s in sorted(assigned):
             ctx.check(s in handled, "reader/state-has-branch", f"{qd} | state {s!r}",
                       f"state {s!r} (assigned in {assigned[s]}) has no branch in dataReceived: the next byte raises and the connection's parser is stuck")
 
     with ctx.section('reader/state-on-instance'):
-        loops_ = [st for st in dr.body if isinstance(st, ast.For)]
-        ctx.need(loops_, "dataReceived: for b in iterbytes(data)")
-        loop_ = loops_[0]
+        # the function that walks the bytes: dataReceived itself or the private helper (possibly a generator) it hands the chunk to
+        byte_loops = [(name, f, lp) for name in sorted(parser) for cls_, f in allm.get(name, []) for lp in ast.walk(f)
+                      if isinstance(lp, ast.For) and isinstance(lp.iter, ast.Call) and src(lp.iter.func) == "iterbytes"]
+        ctx.need(len(byte_loops) == 1, "the parser's loop `for b in iterbytes(<chunk>)`")
+        pname, pfn, loop_ = byte_loops[0]
         stored_in_loop = {x.id for x in ast.walk(loop_) if isinstance(x, ast.Name) and isinstance(x.ctx, ast.Store)}
         loop_vars = {x.id for x in ast.walk(loop_.target) if isinstance(x, ast.Name)}
-        chain_ = [st for st in loop_.body if isinstance(st, ast.If)]
-        ctx.need(chain_, "dataReceived: if self.state == ... chain")
-        branches = []
+        chain_ = [st for st in loop_.body if isinstance(st, ast.If) and any(self_attr(x, "state") for x in ast.walk(st.test))]
+        branches = []       # (label, statements, names bound on entry)
         for node_ in chain_:
             while True:
                 t_ = node_.test
                 label = t_.comparators[0].value if isinstance(t_, ast.Compare) and self_attr(t_.left, "state") and isinstance(t_.comparators[0], ast.Constant) else src(t_)[:30]
-                branches.append((label, node_.body))
+                branches.append((label, node_.body, set()))
                 if len(node_.orelse) == 1 and isinstance(node_.orelse[0], ast.If):
                     node_ = node_.orelse[0]
                 else:
                     break
+        by_table = not chain_
+        if by_table:
+            used_tables = [tn for tn in tables if pname in table_users.get(tn, set())]
+            ctx.need(len(used_tables) == 1, "dataReceived: if self.state == ... chain, or one table of per-state handlers")
+            for key, fn_name in sorted(tables[used_tables[0]].items()):
+                hf = methods(tel)[fn_name]
+                branches.append((key, hf.body, {a.arg for a in hf.args.args}))
+            branches.append(("<dispatch>", loop_.body, set()))
         n_reads = 0
-        for label, body_ in branches:
+        for label, body_, bound in branches:
             wrap = ast.Module(body=list(body_), type_ignores=[])
             stores = sorted((x.lineno, x.col_offset, x.id) for x in ast.walk(wrap) if isinstance(x, ast.Name) and isinstance(x.ctx, (ast.Store, ast.Del)))
+            local_names = stored_in_loop if not by_table or label == "<dispatch>" else {nm for _, _, nm in stores}
             for x in ast.walk(wrap):
-                if isinstance(x, ast.Name) and isinstance(x.ctx, ast.Load) and x.id in stored_in_loop and x.id not in loop_vars:
+                if isinstance(x, ast.Name) and isinstance(x.ctx, ast.Load) and x.id in local_names and x.id not in loop_vars and x.id not in bound:
                     n_reads += 1
                     earlier = any(nm == x.id and (ln, col) < (x.lineno, x.col_offset) for ln, col, nm in stores)
                     ctx.check(earlier, "reader/state-on-instance", f"{qd} | state {label!r} reads local {x.id}",
                               f"in state {label!r} the local `{x.id}` is read but it is bound only while handling an earlier byte (another state): when the chunk ends "
                               "between the two bytes the next dataReceived() call starts with fresh locals -> UnboundLocalError / the pending command is lost. "
                               "State that outlives one byte must live on the instance")
-        ctx.floor("reader/state-on-instance", n_reads, 2, "reads of per-iteration locals")
+        if by_table:
+            ctx.ok("reader/state-on-instance", f"{qd} | <per-state handler functions>", f"{len(branches) - 1} handlers: each handles one byte in its own activation, no local can outlive it")
+        else:
+            ctx.floor("reader/state-on-instance", n_reads, 2, "reads of per-iteration locals")
     with ctx.section('reader/automaton'):
         ctx.need(_ok_rd, 'anchors of reader (section skipped)')
         rd = Reader(mod, tel, dr, C, default.value)
@@ -733,17 +800,27 @@ def check(ctx):
     with ctx.section('reader/transition-table'):
         ctx.need(_ok_rd, 'anchors of reader (section skipped)')
         # domain argument: a per-byte automaton whose memory is self.state plus a few registers on the instance
-        loops_t = [st for st in dr.body if isinstance(st, ast.For)]
-        per_byte = len(loops_t) == 1 and isinstance(loops_t[0].iter, ast.Call) and src(loops_t[0].iter.func) == "iterbytes" and not any(
-            isinstance(x, (ast.While,)) or (isinstance(x, ast.For) and x is not loops_t[0]) for x in ast.walk(dr))
+        # the function that walks the bytes (dataReceived, or the helper / generator it hands the whole chunk to and whose calls it merely relays)
+        bl_ = [(name, f, lp) for name in sorted(parser) for cls_, f in allm.get(name, []) for lp in ast.walk(f)
+               if isinstance(lp, ast.For) and isinstance(lp.iter, ast.Call) and src(lp.iter.func) == "iterbytes"]
+        pfn_t = bl_[0][1] if len(bl_) == 1 else dr
+        loops_t = [st for st in pfn_t.body if isinstance(st, ast.For)]
+        per_byte = len(bl_) == 1 and len(loops_t) == 1 and loops_t[0] is bl_[0][2] and not any(
+            isinstance(x, (ast.While,)) or (isinstance(x, ast.For) and x is not loops_t[0]) for x in ast.walk(pfn_t))
+        if per_byte and pfn_t is not dr:
+            # dataReceived passes its chunk on unchanged, exactly once, and does nothing else with it
+            dchunk = dr.args.args[1].arg
+            dreads = [x for x in ast.walk(dr) if isinstance(x, ast.Name) and x.id == dchunk and isinstance(x.ctx, ast.Load)]
+            hand = [c for c in ast.walk(dr) if isinstance(c, ast.Call) and src(c.func) == f"self.{bl_[0][0]}" and len(c.args) == 1 and not c.keywords and dreads and c.args[0] is dreads[0]]
+            per_byte = len(dreads) == 1 and len(hand) == 1
         regs = set()
         for name in parser:
             for cls_k, f_k in allm.get(name, []):
                 regs |= {t.attr for st in ast.walk(f_k) if isinstance(st, (ast.Assign, ast.AugAssign)) for t in (st.targets if isinstance(st, ast.Assign) else [st.target])
                          if isinstance(t, ast.Attribute) and isinstance(t.value, ast.Name) and t.value.id == "self"}
         carried = [f_.construct for f_ in ctx.findings if f_.rule == "reader/state-on-instance"]
-        chunk = dr.args.args[1].arg if len(dr.args.args) > 1 else None
-        reads = [x for x in ast.walk(dr) if isinstance(x, ast.Name) and x.id == chunk and isinstance(x.ctx, ast.Load)]
+        chunk = pfn_t.args.args[1].arg if len(pfn_t.args.args) > 1 else None
+        reads = [x for x in ast.walk(pfn_t) if isinstance(x, ast.Name) and x.id == chunk and isinstance(x.ctx, ast.Load)]
         only_iter = per_byte and len(reads) == 1 and any(x is reads[0] for x in ast.walk(loops_t[0].iter))
         why_t = None if per_byte else "dataReceived is not a single loop over iterbytes(data)"
         why_t = why_t or (None if only_iter else f"the chunk is also looked at as a whole ({len(reads) - 1} reads of `{chunk}` outside the loop header): behaviour depends on "
